@@ -210,7 +210,7 @@ fn rule(target: Target) -> &'static str {
 }
 
 pub fn run_target(ctx: &Ctx, target: Target) -> Report {
-    let cases_per_worker: u32 = ctx.tier.pick(3000, 60000);
+    let cases_per_worker: u32 = ctx.tier.pick(6000, 60000);
     let cfg = GenCfg { max_ops: ctx.tier.pick(40, 100), ..GenCfg::default() };
     let mut rep = par_workers(ctx.threads, |wi| {
         let mut rep = Report::new(rule(target));
